@@ -649,3 +649,25 @@ def error_taint(fn, sources, sanitizers, clean_variants=("Ok", "Continue", "Some
                 out.append((d[1], d[3]))
     # a source assigned directly into _0 by the call itself
     return out, tainted
+
+
+def option_test_edges(prog, fn, names=("is_none",)):
+    """edges on which an Option-emptiness test holds.  Yields (call_block, term, true_edge, false_edge, closure_or_None):
+    the test is either called directly in fn, or inside a closure handed to an Option combinator of fn
+    (`opt.is_some_and(|x| slot[x].is_none())`, `opt.map_or(false, |x| ...)`), in which case the edges are those of
+    the combinator's result."""
+    from .facts import callee_is
+    out = []
+    for b, t in fn.calls():
+        if callee_is(t, *names):
+            e = bool_switch_edges(fn, t["dest"][0])
+            if e and e[0] != e[1]:
+                out.append((b, t, e[0], e[1], None))
+        elif t["callee"].rsplit("::", 1)[-1] in ("is_some_and", "map_or", "is_ok_and"):
+            for a in t.get("arg_adts", []) or []:
+                g = prog.fns.get(a)
+                if g is not None and any(callee_is(tt, *names) for bb, tt in g.calls()):
+                    e = bool_switch_edges(fn, t["dest"][0])
+                    if e and e[0] != e[1]:
+                        out.append((b, t, e[0], e[1], g))
+    return out
